@@ -310,7 +310,7 @@ def scen_text(sc, observe=False, host_energy=False, link_energy=False):
             out.append("route %d %d %d %s" % (nh, nh + 1, len(a["links"]), " ".join(str(l - 1) for l in a["links"])))
             nh += 2
     if observe:
-        out.append("observe")
+        out.append("observe %d" % int(observe))
     for ai, a in enumerate(sc["acts"]):
         out.append("actor 0")
         if a["start"] > 0:
